@@ -817,4 +817,55 @@ pub fn sweep_vs_reput_scenario(delay_ms: u64) -> Option<Failure> {
     failure
 }
 
+/// Directed scenario of finding F12: a key universe that fits the cache exactly enough (4 + 11 + 14 + 17 = 46 of 50). The
+/// TTL key (17) expires; the sweeper takes its id out of the weight map and is delayed `delay_ms` before it subtracts the
+/// weight from the total. Meanwhile a client removes the key's TTL in place, deletes the key (accepted: the store entry is
+/// still there) and puts it again with the same weight. Everything fits, so nothing may be evicted and the put must be accepted.
+pub fn phantom_weight_scenario(delay_ms: u64) -> Option<Failure> {
+    let cfg = Cfg { counters: 100, capacity: 16, max_weight: 50, shards: 2, cmd_buf: 8, pool: 1, buf: 4, tick_us: 300, hash: HashMode::Identity, weight_mode: WeightMode::Table(vec![8]), start_ns: 0, noise_readers: 0, prelude: None };
+    let inst = Instance::new();
+    let start = BASE_SECS * 1_000_000_000;
+    let clock = HClock::new(start);
+    let cache = Arc::new(crate::seq::build_cache(&cfg, &clock, &inst));
+    verif::install(None);
+    let first = Arc::new(std::sync::atomic::AtomicBool::new(true));
+    let first_in_handler = first.clone();
+    inst.set_handler(Some(Arc::new(move |site: Site| { if site == Site::CacheWeightDeleteAfterRemove && first_in_handler.swap(false, Ordering::SeqCst) { std::thread::sleep(Duration::from_millis(delay_ms)); } })));
+    for (key, weight) in [(1u64, 4i64), (2, 11), (3, 14)] {
+        let ack = cache.put_with_weight(key, 100 + key, weight).ok()?;
+        if await_ack(&ack, &inst).ok().map(St::from) != Some(St::Accepted) { cache.shutdown(); return None; }
+    }
+    let ack = cache.put_with_weight_and_ttl(4, 104, 17, Duration::from_secs(1)).ok()?;
+    if await_ack(&ack, &inst).ok().map(St::from) != Some(St::Accepted) { cache.shutdown(); return None; }
+    clock.set(start + 1_500_000_000);
+    let hit = |inst: &Instance| inst.site_hits[Site::CacheWeightDeleteAfterRemove as usize].load(Ordering::Relaxed);
+    wait_for(&inst, || if hit(&inst) >= 1 { Some(()) } else { None }).ok()?;
+    // a client removes the TTL in place: the store entry changes at once (its index update waits for the sweeper), so
+    // the delete that follows does not have to wait for the expiry shard the sweeper holds
+    let upsert_cache = cache.clone();
+    let upsert_inst = inst.clone();
+    let upserter = std::thread::spawn(move || {
+        if let Ok(ack) = upsert_cache.put_or_update(PutOrUpdateRequestBuilder::new(4u64).weight(17).remove_time_to_live().build()) { let _ = await_ack(&ack, &upsert_inst); }
+    });
+    let peeked = wait_for(&inst, || match cache.verif_peek(&4) { Some((_, None, _)) => Some(true), None => Some(false), _ => None }).ok()?;
+    if !peeked { let _ = upserter.join(); inst.set_handler(None); cache.shutdown(); return None; }
+    let ack = cache.delete(4).ok()?;
+    let deleted = await_ack(&ack, &inst).ok().map(St::from);
+    let ack = cache.put_with_weight(4, 204, 17).ok()?;
+    let put = await_ack(&ack, &inst).ok().map(St::from);
+    let _ = upserter.join();
+    let started = inst.sweeps_started.load(Ordering::Acquire);
+    let _ = wait_for(&inst, || if inst.sweeps_completed.load(Ordering::Acquire) >= started + 2 { Some(()) } else { None });
+    inst.set_handler(None);
+    let held: Vec<Option<u64>> = [1u64, 2, 3].iter().map(|key| cache.get(key)).collect();
+    let used = cache.total_weight_used();
+    cache.shutdown();
+    // only judge the schedule that was aimed at: the delete found the store entry and was accepted
+    if deleted != Some(St::Accepted) { return None; }
+    if held.iter().any(|value| value.is_none()) || put != Some(St::Accepted) {
+        return Some(Failure::new("C03", "C03/conc/evicted-by-phantom-weight", format!("keys 1, 2, 3 (weights 4, 11, 14, no time-to-live) and key 4 (weight 17, TTL 1 s) fit a cache of weight 50; key 4 expired and, while the sweeper was between removing its id from the weight map and subtracting its weight, key 4 had its TTL removed in place, was deleted (acknowledged {:?}) and put again with weight 17 (acknowledged {:?}): reads of keys 1, 2, 3 now give {:?}, total weight {}: the put saw the expired key's weight still counted and evicted live keys (or was refused) although everything fits", deleted, put, held, used)).with_also(vec!["C06".to_string()]));
+    }
+    None
+}
+
 include!("conc_check.rs");
